@@ -342,6 +342,14 @@ func (bp *boundsProver) belowLen1(v, x ssa.Value, strict bool, blk *ssa.BasicBlo
 	if la, ok := lenArg(v); ok && !strict && stripSliceConv(la) == x {
 		return true
 	}
+	// the position of a byte found in x (`end := bytes.IndexByte(b, '"')`): below len(x) by the
+	// function's contract (it is -1 or an index into x)
+	if call, isCall := v.(*ssa.Call); isCall && len(call.Call.Args) == 2 && stripSliceConv(call.Call.Args[0]) == x {
+		switch an.CalleeName(&call.Call) {
+		case "bytes.IndexByte", "strings.IndexByte", "bytes.Index", "strings.Index", "bytes.IndexRune", "strings.IndexRune", "bytes.IndexAny", "strings.IndexAny":
+			return true
+		}
+	}
 	ok := false
 	cmpFacts(blk.Parent(), blk, func(l ssa.Value, op token.Token, r ssa.Value) {
 		if ok {
